@@ -52,10 +52,16 @@ def safe_run(check: Check, ir: Any) -> Outcome:
 
 
 def finding_matches(finding: Dict[str, Any], kind: str, features: set) -> bool:
-    if finding.get("kind") and finding["kind"] != kind:
+    """A failure is attributed to a finding iff the discrepancy kind is one the finding lists and the
+    (shrunk) IR has one of the finding's structural features."""
+    kinds = finding.get("kinds") or ([finding["kind"]] if finding.get("kind") else [])
+    if kinds and kind not in kinds:
         return False
-    feats = finding.get("features") or ([finding["feature"]] if finding.get("feature") else [])
-    return all(f in features for f in feats)
+    return any(f in features for f in finding.get("match_any", []))
+
+
+def finding_exclusions(finding: Dict[str, Any]) -> List[str]:
+    return list(finding.get("exclude") or finding.get("match_any") or [])
 
 
 # ----------------------------------------------------------------------------- replay phase
@@ -301,8 +307,7 @@ def run_check(check_id: str, tier: str, seed: int, examples_override: Optional[i
                     continue
                 violations.append(dict(source=c["file"], kind=c["kind"], detail=c["detail"],
                                        path=os.path.join(VERIF_ROOT, c["file"])))
-            exclude = sorted({x for f in active for x in (f.get("exclude") or f.get("features") or
-                                                          ([f["feature"]] if f.get("feature") else []))})
+            exclude = sorted({x for f in active for x in finding_exclusions(f)})
             futs = [
                 pool.apply_async(_search_task, (check_id, tier, s, seed, exclude, budget["examples"],
                                                 float(budget["seconds"]), True))
